@@ -137,7 +137,7 @@ impl Prop for C10 {
             }
         }
         if c.cli {
-            check_cli(e, &t0, &t1, &sc, ctx)?;
+            check_cli(e, &t0, &t1, &sc, !ratios_ok, ctx)?;
             ctx.label("cli_run");
         }
         // classification
@@ -195,7 +195,7 @@ fn cli_args(e: &BFCase, file: &str) -> (Vec<String>, Vec<(String, Vec<u8>)>) {
 }
 
 /// the same file twice in two processes, and the rewritten file
-fn check_cli(e: &BFCase, t0: &str, t1: &str, sc: &crate::tol::Scales, _ctx: &mut Ctx) -> CheckResult {
+fn check_cli(e: &BFCase, t0: &str, t1: &str, sc: &crate::tol::Scales, rer_is_noise: bool, _ctx: &mut Ctx) -> CheckResult {
     if e.area <= 1e-3 {
         return Ok(());
     }
@@ -205,7 +205,9 @@ fn check_cli(e: &BFCase, t0: &str, t1: &str, sc: &crate::tol::Scales, _ctx: &mut
             ensure!(!run.timed_out && run.signal.is_none() && !run.stderr.contains("panicked at"), "cli_crash", "{}", run.summary());
             ensure!(run.status == Some(0), "cli_status", "cteepbd failed on a valid building: {}", run.summary());
             let i = run.stdout.find("** Eficiencia energética").ok_or_else(|| Failure::new("cli_report", "no report section"))?;
-            Ok(crate::props::c17::parse_report(&run.stdout[i..]))
+            // RER lines are ratios of residues when the total primary energy is noise
+            let txt: String = run.stdout[i..].lines().filter(|l| !(rer_is_noise && l.starts_with("RER"))).collect::<Vec<_>>().join("\n");
+            Ok(crate::props::c17::parse_report(&txt))
         })();
         run.cleanup();
         r
